@@ -259,6 +259,14 @@ def directed(run, prop, tier, seed):
                 (f"*=0x008000\n.macro row(wide) {{\n.for k := 0, 2 {{\n.if wide {{\n.db wide\n}} else {{\n.db 0xEE\n}}\n}}\n}}\nrow({a})\nrow(0)\n", bytes([a, a, 0xEE, 0xEE])),
                 (f"*=0x008000\n.scope cfg {{\non := {a}\n{{\n.for k := 0, 2 {{\n.if on {{\n.db k\n}}\n}}\n}}\n}}\n", bytes([0, 1])),
                 (f"*=0x008000\n.for i := 0, 2 {{\n.for j := 0, {c} {{\n.db i, j\n}}\n}}\njmp.w done\ndone:\n", b"".join(bytes([i, j]) for i in range(2) for j in range(c)) + b"\x4c" + (0x8000 + 4 * c + 3).to_bytes(2, "little")),
+                # a loop body that consists of a spliced code block (with flat statements around it): every iteration
+                # expands the block anew, scopes and definitions included
+                (f"*=0x008000\n.macro rep_zq(n, code) {{\n.for i := 0, n {{\n{{{{code}}}}\n.db i\n}}\n}}\nrep_zq({c}, {{\n{{\nl:\n.dw l\n}}\n}})\n",
+                 b"".join((0x8000 + 3 * i).to_bytes(2, "little") + bytes([i]) for i in range(c))),
+                (f"*=0x008000\n.macro rep_zq(n, code) {{\n.for i := 0, n {{\n{{{{code}}}}\n}}\n}}\nrep_zq({c}, {{\nx_zq = i + {a}\n.db x_zq\n}})\n",
+                 bytes((i + a) % 256 for i in range(c))),
+                (f"*=0x008000\n.macro one_zq(v) {{\n.db v\n}}\n.macro rep_zq(n, code) {{\n.for i := 0, n {{\n.db 0xEE\n{{{{code}}}}\n}}\n}}\nrep_zq({c}, {{\none_zq(i)\n.for j := 0, 2 {{\n.db j\n}}\n}})\n",
+                 b"".join(bytes([0xEE, i, 0, 1]) for i in range(c))),
                 # the selected branch is assembled exactly as written by hand: what that refuses, the .if refuses too
                 # (only an undefined name in the *condition* counts as false)
                 (f"*=0x008000\n.db {a}\n.if {b} {{\n.db 1\nno_such_macro_zq()\n}} else {{\n.db 2\n}}\n", None),
